@@ -278,4 +278,12 @@ def coq_term(case, obs):
     ctor = "run_mnt" if case["kind"] == "mnt" else "run_met"
     prog = C.clist(case["prog"][:len(obs["steps"])], coq_step)
     o = C.clist(obs["steps"], coq_obs_step)
-    return f"obs_eqb ({ctor} {R.coq_cells(case['cells'])} {prog}) {o}"
+    term = f"obs_eqb ({ctor} {R.coq_cells(case['cells'])} {prog}) {o}"
+    # the refinement statement of Props/C05.v evaluated on this program (selection steps only)
+    sels = []
+    for st in case["prog"]:
+        if st["op"] != "sel":
+            break
+        sels.append(f"({0 if st['dim'] in (0, -3) else 1}%nat, {R.coq_index(st['idx'])})")
+    canon = "canon_mnt" if case["kind"] == "mnt" else "canon_met"
+    return f"({term} && {canon} {R.coq_cells(case['cells'])} {C.clist(sels)})"
